@@ -3,6 +3,7 @@ package c04
 
 import (
 	"html/template"
+	"time"
 
 	plush "github.com/gobuffalo/plush/v5"
 
@@ -65,7 +66,7 @@ func (i *iter) Next() interface{} {
 	return i.n
 }
 
-const nKinds = 33
+const nKinds = 36
 
 // val: a value of kind k (payloads arbitrary where a payload can matter).
 func val(k int) interface{} {
@@ -137,8 +138,14 @@ func val(k int) interface{} {
 		return &arr
 	case 31:
 		return named("n")
-	default:
+	case 32:
 		return namedMap{"a": 1}
+	case 33:
+		return time.Date(2020, 2, 3, 4, 5, 6, 0, time.UTC) // the one struct type the output sink special-cases
+	case 34:
+		return (*time.Time)(nil)
+	default:
+		return uint8(200)
 	}
 }
 
